@@ -26,6 +26,15 @@ def gen(rng, tier):
         c = G.gen_cfg(rng, max_prods=6, max_body=3)
     c["nwords"] = rng.randint(3, 6)
     c["wseed"] = rng.getrandbits(30)
+    if rng.chance(0.1) and len(c["vars"]) >= 2 and c["terms"]:
+        # a variable and a terminal that share a value (still two symbols): only the Earley parser is run on
+        # these, and only when no two productions differ merely by that kind
+        v = rng.pick([x for x in c["vars"] if x != c["start"]] or c["vars"])
+        t = rng.pick(c["terms"])
+        blind = lambda p: (p[0] if p[0] != v else t, tuple(x if x != v else t for x in p[1]))
+        if v != c["start"] and len({blind(p) for p in c["prods"]}) == len(c["prods"]):
+            c["alias"] = {v: t}
+            c["fcfg_only"] = True
     return c
 
 
@@ -128,6 +137,9 @@ def run(case, out):
     validated = 0
     cfg = G.build(case)
     out.sig = G.signature(cfg)
+    if case.get("fcfg_only"):
+        out.probe("variable_and_terminal_share_a_value")
+        return _fcfg_part(case, out, ref, lang, words, members, validated)
     # ---- normal-form tree ----------------------------------------------------
     nf = out.call("to_normal_form", G.build(case).to_normal_form)
     nref = G.extract(nf) if nf is not FAILED else None
@@ -208,6 +220,14 @@ def run(case, out):
                     continue
                 if _check_tree(out, "recursive_descent", t, ref, w, ref.start):
                     validated += 1
+    _fcfg_part(case, out, ref, lang, words, members, validated)
+
+
+def _fcfg_part(case, out, ref, lang, words, members, validated):
+    from pyformlang.cfg.cfg import NotParsableException
+    from pyformlang.cfg import Variable, Terminal
+    from pyformlang.fcfg import FCFG, FeatureProduction, FeatureStructure
+
     # ---- FCFG (feature-free grammar built through FeatureProduction) ----------------
     def fcfg():
         ps = []
@@ -227,7 +247,7 @@ def run(case, out):
             continue             # verdicts are C18's business
         except Exception as e:
             continue
-        if w in lang:
-            if _check_tree(out, "FCFG.get_parse_tree", t, ref, w, ref.start):
-                validated += 1
+        # every tree handed out must be a real derivation of w -- also when w is not a member (then it cannot be)
+        if _check_tree(out, "FCFG.get_parse_tree", t, ref, w, ref.start):
+            validated += 1
     out.nontrivial = len(members) >= 2 and validated >= 1
